@@ -13,7 +13,7 @@ from .. import coqio as q
 PROP = "C15"
 CORR = "Corr.C15"
 REQUIRES = ["Model.Reactor", "Model.Spinner", "Spec.C15"]
-PROOF_FILES = ["Proof/C15.v"]
+PROOF_FILES = ["Proof/C15Spec.v", "Proof/C15.v"]
 MANIFEST = {
     "text": "PARTIAL. Coq theorems over all histories of runs on one Spinner (all function shapes, all delays relative "
             "to the timeout, all stop-request instants, all tie-break oracles, all pre-installed handlers) about a "
@@ -48,7 +48,12 @@ TRUSTED = ["PARTIAL: the reactor, Twisted's Deferred and real signal delivery ar
 ASSUMPTIONS = ["the reactor runs either one delayed call per iteration (crash() takes effect immediately) or, like "
                "the real reactor, every call due at the same instant in one iteration; simultaneous calls are "
                "ordered by an explicit oracle; the theorems quantify over both modes and all oracles",
-               "the function's leftovers do nothing when they run; Deferreds fire only from reactor callbacks"]
+               "the function's leftovers do nothing when they run; Deferreds fire only from reactor callbacks",
+               "Spinner._OBLIGATORY_REACTOR_ITERATIONS = 0 and _PRESERVED_SIGNALS covers SIGINT/SIGTERM/SIGCHLD: "
+               "read from the live code into coq/Gen/Spinnertabs.v and re-proved on every run "
+               "(C15_table_iterations, C15_table_preserved)",
+               "each run starts from a reactor at rest (not running, nothing pending, never really stopped): "
+               "established for the first run, proved to be re-established by every run (invariant Idle)"]
 EXPLANATION = ("Theorems in coq/Props/C15.v over all histories; correspondence: the real Spinner over "
                "vcheck.vreactor.VReactor against coq/Model/Spinner.v on generated histories, plus a sample on the real "
                "global reactor in a subprocess.")
@@ -92,6 +97,15 @@ def drive(case):
 
     sigs = [getattr(signal, n) for n in SIGNAMES]
     saved = [signal.getsignal(s) for s in sigs]
+    # cases must not see each other: not_reentrant keeps a process-global table of "inside a call" flags (its
+    # default argument), workers run many cases.  Within a case nothing is reset: a flag left set by one run of
+    # the history makes the next run fail, and that is reported with a self-contained input.
+    try:
+        for dflt in (_spinner.not_reentrant.__defaults__ or ()):
+            if isinstance(dflt, dict):
+                dflt.clear()
+    except AttributeError:
+        pass
     excs = [type("UserExc%d" % k, (Exception,), {}) for k in range(N_USER_EXC)]
     try:
         reactor = VReactor(case["oracle"], batch=case.get("batch", False))
@@ -306,6 +320,14 @@ def generate(rng, tier):
         [mkrun(ok, reenter=True, other=True)],
         [mkrun(["later", 2, "ok", 5], reenter=True, other=True, extras=[1]), mkrun(ok)],
         [mkrun(never, reenter=True, other=True), mkrun(ok, clear=False)],
+    ]
+    fixed += [
+        # exception paths with handlers pre-installed and a handler installed by the function: restored all the same
+        [mkrun(err, pre=(3, 1, 4), setsig=[1, 8]), mkrun(["later", 3, "err", 2], pre=(2, 4, 0), extras=[1], setsig=[0, 8])],
+        [mkrun(never, pre=(2, 3, 4), setsig=[2, 8]), mkrun(never, stop=1, pre=(4, 0, 1), setsig=[0, 8]),
+         mkrun(["later", T + 1, "err", 3], pre=(1, 1, 1))],
+        # a run that succeeds and leaves nothing must not make the next one (without clear_junk) be refused
+        [mkrun(ok), mkrun(["later", 2, "ok", 5], clear=False), mkrun(err, clear=False), mkrun(ok, clear=False)],
     ]
     for runs in fixed:
         cases.append({"oracle": [], "batch": False, "runs": runs})
